@@ -210,7 +210,7 @@ def clone(n):
         for f in n._fields:
             if hasattr(n, f):
                 setattr(new, f, clone(getattr(n, f)))
-        for a in ("lineno", "col_offset", "end_lineno", "end_col_offset"):
+        for a in ("lineno", "col_offset", "end_lineno", "end_col_offset", "_entry"):
             if hasattr(n, a):
                 setattr(new, a, getattr(n, a))
         return new
@@ -255,6 +255,8 @@ class _LenShift(ast.NodeTransformer):
         self.st = st
 
     def visit_Call(self, node):
+        if getattr(node, "_entry", False):
+            return node        # already denotes the length at entry
         self.generic_visit(node)
         if isinstance(node.func, ast.Name) and node.func.id == "len" and len(node.args) == 1:
             a = node.args[0]
@@ -264,6 +266,7 @@ class _LenShift(ast.NodeTransformer):
                 if d is None:
                     return ast.Name(id=f"len_{a.attr}_unknown", ctx=ast.Load())
                 base = node if ep == 0 else ast.Name(id=f"len_{a.attr}_after_callout{ep}", ctx=ast.Load())
+                base._entry = True
                 if d == 0:
                     return base
                 return ast.BinOp(left=base, op=ast.Add() if d > 0 else ast.Sub(), right=ast.Constant(value=abs(d)))
@@ -294,6 +297,7 @@ class Interp:
         self._stmt: List[ast.AST] = []
         self._depth = 0
         self._catch: List[set] = []       # exception names caught by the enclosing try statements
+        self._depth_const = 0
 
     # ---- bookkeeping ---------------------------------------------------------------------------
     @property
@@ -627,6 +631,14 @@ class Interp:
         return outs
 
     def assign(self, targets, value, st: St) -> List[St]:
+        if isinstance(value, ast.IfExp):
+            t, f, ex = self.branch(value.test, st)
+            out = list(ex)
+            for x in t:
+                out += self.assign(targets, value.body, x)
+            for x in f:
+                out += self.assign(targets, value.orelse, x)
+            return out
         if len(targets) == 1 and isinstance(targets[0], (ast.Tuple, ast.List)) and isinstance(value, (ast.Tuple, ast.List)) \
                 and len(targets[0].elts) == len(value.elts):
             # evaluate every right-hand side first, then store
@@ -688,7 +700,7 @@ class Interp:
                 st.alias.pop(k)
             self.drop_decisions_on(st, t.id)
             if _pure(rhs) and not isinstance(rhs, ast.Constant):
-                e = _Subst(st.alias).visit(_LenShift(st).visit(clone(rhs)))
+                e = _LenShift(st).visit(_Subst(st.alias).visit(clone(rhs)))
                 if "self." in src(e) or isinstance(e, ast.Name):
                     st.alias[t.id] = e
             return
@@ -780,7 +792,7 @@ class Interp:
                 continue
             tv = self.truth(v, r)
             if tv is None:
-                t, f = self.decide(("truth", src(_Subst(r.alias).visit(_LenShift(r).visit(clone(e))))), None, r, e)
+                t, f = self.decide(("truth", src(_LenShift(r).visit(_Subst(r.alias).visit(clone(e))))), None, r, e)
                 trues += t
                 falses += f
             else:
@@ -823,7 +835,7 @@ class Interp:
             parts = [ast.Compare(left=a, ops=[op], comparators=[b]) for a, op, b in zip(vals, e.ops, vals[1:])]
             return self.branch(ast.BoolOp(op=ast.And(), values=parts), st)
         op = e.ops[0]
-        sub = _Subst(st.alias).visit(_LenShift(st).visit(clone(e)))
+        sub = _LenShift(st).visit(_Subst(st.alias).visit(clone(e)))
         r = self.spec.compare(st, sub)
         if r is not None:
             return ([st], [], []) if r else ([], [st], [])
@@ -841,7 +853,7 @@ class Interp:
                     ex += res
                     continue
                 if res is None:
-                    sub2 = _Subst(s2.alias).visit(_LenShift(s2).visit(clone(e)))
+                    sub2 = _LenShift(s2).visit(_Subst(s2.alias).visit(clone(e)))
                     key = lincmp(sub2)
                     neg = lincmp(sub2, negate=True)
                     if key is None:
@@ -888,6 +900,19 @@ class Interp:
             return None
         if isinstance(op, (ast.Lt, ast.LtE, ast.Gt, ast.GtE)) and (lv[0] == "none" or rv[0] == "none"):
             return self.throw(st, "TypeError", "type-error", f"`{src(node)}` orders an integer against None (TypeError) for this state", node)
+        if (lv[0] == "inf") != (rv[0] == "inf") and (lv[0] in ("int", "sym", "bool", "inf")) and (rv[0] in ("int", "sym", "bool", "inf")):
+            # finite integer against +/- infinity
+            inf_left = lv[0] == "inf"
+            sign = (lv if inf_left else rv)[1]
+            less = (sign < 0) if inf_left else (sign > 0)       # is left < right ?
+            if isinstance(op, (ast.Lt, ast.LtE)):
+                return less
+            if isinstance(op, (ast.Gt, ast.GtE)):
+                return not less
+            if isinstance(op, ast.Eq):
+                return False
+            if isinstance(op, ast.NotEq):
+                return True
         a, b = self.as_int(lv, st), self.as_int(rv, st)
         if a is not None and b is not None:
             return a_cmp(op, a, b)
@@ -918,6 +943,14 @@ class Interp:
                 return [(st.locs[e.id], st)]
             if e.id in ("True", "False", "None"):
                 return [({"True": ("bool", True), "False": ("bool", False), "None": ("none",)}[e.id], st)]
+            mv = self.mod.module_assign(e.id)
+            if mv is not None and self._depth_const < 3:
+                self._depth_const += 1
+                try:
+                    if isinstance(mv, (ast.Constant, ast.UnaryOp, ast.BinOp)) or (isinstance(mv, ast.Call) and dotted(mv.func) == "float"):
+                        return self.eval(mv, st)
+                finally:
+                    self._depth_const -= 1
             return [(("top",), st)]
         if isinstance(e, ast.Attribute) and isinstance(e.value, ast.Name) and e.value.id == "self":
             a = e.attr
@@ -928,6 +961,8 @@ class Interp:
             if r and isinstance(r[1], (ast.FunctionDef, ast.AsyncFunctionDef)):
                 return [(("meth", a), st)]
             return [(("top",), st)]
+        if isinstance(e, ast.Attribute) and dotted(e) in ("math.inf", "sys.maxsize"):
+            return [(("inf", 1), st)]
         if isinstance(e, ast.Attribute):
             out = []
             for v, r in self.eval(e.value, st):
@@ -1108,6 +1143,8 @@ class Interp:
             return out
         if fn in ("list", "deque", "collections.deque") and not e.args:
             return [(("newlist",), st)]
+        if fn == "float" and len(e.args) == 1 and isinstance(e.args[0], ast.Constant) and str(e.args[0].value).lower().lstrip("+-") in ("inf", "infinity"):
+            return [(("inf", -1 if str(e.args[0].value).startswith("-") else 1), st)]
         if fn == "cast" and len(e.args) == 2:
             return self.eval(e.args[1], st)
         if fn in _PURE_FUNCS or (fn and (fn.rsplit(".", 1)[0] in _PURE_ROOTS or fn.split(".")[0] in ("log", "_log", "logging", "warnings"))):
@@ -1174,7 +1211,8 @@ class Interp:
         return self.opaque_call(e, st, "unknown function")
 
     def inline(self, func, owner, args, keywords, st: St) -> List[Tuple[tuple, St]]:
-        params = [a.arg for a in func.args.posonlyargs + func.args.args][1:]
+        static = any((dotted(d) or "").split(".")[-1] == "staticmethod" for d in func.decorator_list)
+        params = [a.arg for a in func.args.posonlyargs + func.args.args][0 if static else 1:]
         out = []
         for vals, r in self.eval_args(args, st):
             if vals is None:
@@ -1186,8 +1224,14 @@ class Interp:
             vals = vals + [("top",)] * (len(params) - len(vals))
             saved = (r.locs, r.alias)
             r.frames = r.frames + (saved,)
+            new_alias = {}
+            for p_, a_ in zip(params, args):
+                if not isinstance(a_, ast.Starred) and _pure(a_) and not isinstance(a_, ast.Constant):
+                    ae = _LenShift(r).visit(_Subst(r.alias).visit(clone(a_)))
+                    if "self." in src(ae):
+                        new_alias[p_] = ae
             r.locs = dict(zip(params, vals))
-            r.alias = {}
+            r.alias = new_alias
             self._depth += 1
             self._qual.append(self.qualname(owner, func))
             saved_catch, self._catch = self._catch, list(self._catch)
@@ -1238,6 +1282,9 @@ class Interp:
                 if rec["where"] == attr and rec["origin"][0] == "peek" and rec["origin"][2] == idx:
                     rec["where"] = None
                     rec["origin"] = ("popped", attr, end)
+            for k, lv_ in list(s.locs.items()):
+                if lv_ == ("obj", ("peek", attr, idx)):
+                    s.locs[k] = ("obj", ("popped", attr, end))
             if self.spec.list_elems.get(attr) == "dfr":
                 v = s.new_dfr(origin=("popped", attr, end), pristine=False)
             else:
@@ -1417,6 +1464,17 @@ def fifo_rule(ctx, mod, cls, MODNAME, attr, cancellers, rule="queue/fifo", floor
         bc = mod.find(dotted(b) or "")
         if isinstance(bc, ast.ClassDef):
             acc += [a for a in class_accesses(mod, bc, {attr}, receivers={"self"})]
+    def norm_kind(a):
+        if a.kind == "delitem" and isinstance(a.node, ast.Delete):
+            for t in a.node.targets:
+                if isinstance(t, ast.Subscript):
+                    i = t.slice
+                    if isinstance(i, ast.Constant) and i.value == 0:
+                        return "pop_first"
+                    if isinstance(i, ast.UnaryOp) and isinstance(i.op, ast.USub) and isinstance(i.operand, ast.Constant) and i.operand.value == 1:
+                        return "pop_last"
+        return a.kind
+    acc = [a._replace(kind=norm_kind(a)) for a in acc]
     fills = {a.kind for a in acc if a.kind in FILL_BACK | FILL_FRONT}
     for a in acc:
         fn = a.func.split(".", 1)[1]
@@ -1864,7 +1922,9 @@ def resolve_locals(func, e: ast.AST, rounds: int = 3) -> ast.AST:
 _MINI_BUILTINS = {"len": len, "max": max, "min": min, "abs": abs, "range": range, "list": list, "sorted": sorted, "int": int,
                   "float": float, "bool": bool, "enumerate": enumerate, "tuple": tuple, "sum": sum, "any": any, "all": all,
                   "reversed": reversed, "isinstance": lambda *a: True, "True": True, "False": False, "None": None,
-                  "NotImplemented": NotImplemented, "object": object}
+                  "NotImplemented": NotImplemented, "object": object, "chain": __import__("itertools").chain,
+                  "itertools": __import__("itertools"), "operator": __import__("operator"), "attrgetter": __import__("operator").attrgetter,
+                  "methodcaller": __import__("operator").methodcaller, "filter": filter, "map": map, "zip": zip, "set": set, "dict": dict}
 _PY_EXC = {"ValueError": ValueError, "IndexError": IndexError, "KeyError": KeyError, "AttributeError": AttributeError,
            "TypeError": TypeError, "Exception": Exception, "BaseException": BaseException, "LookupError": LookupError}
 
@@ -2639,3 +2699,290 @@ def check_equality_is_identity(ctx, mod_elem, elem_cls: ast.ClassDef, owner_qual
                   "that compares equal (e.g. a call scheduled for the same time) is removed / sifted instead of the one meant",
                   detail=f"no __eq__/__ne__ (nor a synthesising decorator) in the MRO of {elem_cls.name} within its module")
     return offenders
+
+
+# =========================================================================== normalised view of a method (helpers read as inlined)
+class _NoInline(Exception):
+    pass
+
+
+class _Rename(ast.NodeTransformer):
+    def __init__(self, mapping: Dict[str, str], subst: Dict[str, ast.AST]):
+        self.mapping, self.subst = mapping, subst
+
+    def visit_Name(self, node):
+        if node.id in self.subst and isinstance(node.ctx, ast.Load):
+            return clone(self.subst[node.id])
+        if node.id in self.mapping:
+            return ast.Name(id=self.mapping[node.id], ctx=node.ctx)
+        return node
+
+
+def _strip_doc(body):
+    return [s for s in body if not (isinstance(s, ast.Expr) and isinstance(s.value, ast.Constant) and isinstance(s.value.value, str))]
+
+
+def _simple_arg(a) -> bool:
+    return isinstance(a, (ast.Name, ast.Constant)) or (isinstance(a, ast.Attribute) and _simple_arg(a.value))
+
+
+class Normaliser:
+    """``view(func)`` -> (function with the private helpers of the class read as inlined, fully_understood, notes).
+
+    Handled: statement calls ``self._h(args)``; ``x = self._h(args)`` / ``return self._h(args)``; single-expression helpers
+    (predicates, getters) in any expression; static helpers; a generator helper consumed by ``for v in self._g(..)`` read as
+    the loop it abbreviates; a selector helper ``while (v := self._sel(..)) is not None`` (a loop that returns the next item, or
+    None) fused with its consumer.  ``keep``: helper names the rules refer to by name (left as calls).  ``fully_understood``
+    is False when a call to a private helper of the class remains - absence-based verdicts must then be withheld."""
+
+    def __init__(self, mod, cls: ast.ClassDef, keep=()):
+        self.mod, self.cls, self.keep = mod, cls, set(keep)
+        self.n = 0
+        self.notes: List[str] = []
+
+    # ---- helper lookup
+    def helper(self, call) -> Optional[ast.FunctionDef]:
+        if not (isinstance(call, ast.Call) and isinstance(call.func, ast.Attribute) and isinstance(call.func.value, ast.Name)
+                and call.func.value.id == "self"):
+            return None
+        name = call.func.attr
+        if not name.startswith("_") or name.startswith("__") or name in self.keep or call.keywords or any(isinstance(a, ast.Starred) for a in call.args):
+            return None
+        r = mro_lookup(self.mod, self.cls, name)
+        if not r or not isinstance(r[1], ast.FunctionDef):
+            return None
+        h = r[1]
+        if h.args.vararg or h.args.kwarg or h.args.kwonlyargs:
+            return None
+        decos = {(dotted(d) or "").split(".")[-1] for d in h.decorator_list}
+        if decos - {"staticmethod"}:
+            return None
+        return h
+
+    @staticmethod
+    def is_generator(h) -> bool:
+        return any(isinstance(x, (ast.Yield, ast.YieldFrom)) for x in walk_local(ast.Module(body=h.body, type_ignores=[])))
+
+    def bind(self, h, call):
+        """-> (prelude statements, renaming transformer) for one inlining of h at `call`."""
+        static = any((dotted(d) or "").split(".")[-1] == "staticmethod" for d in h.decorator_list)
+        params = [a.arg for a in h.args.posonlyargs + h.args.args][0 if static else 1:]
+        nd = len(h.args.defaults)
+        args = list(call.args)
+        if len(args) > len(params) or len(args) < len(params) - nd:
+            raise _NoInline("arity")
+        for i in range(len(args), len(params)):
+            args.append(h.args.defaults[i - (len(params) - nd)])
+        self.n += 1
+        tag = f"__{h.name.strip('_')}{self.n}"
+        body_mod = ast.Module(body=h.body, type_ignores=[])
+        stored = {x.id for x in walk_local(body_mod) if isinstance(x, ast.Name) and isinstance(x.ctx, (ast.Store, ast.Del))}
+        mapping = {n: n + tag for n in stored if n not in params}
+        subst, prelude = {}, []
+        for p, a in zip(params, args):
+            if _simple_arg(a) and p not in stored:
+                subst[p] = a
+            else:
+                mapping[p] = p + tag
+                prelude.append(ast.Assign(targets=[ast.Name(id=p + tag, ctx=ast.Store())], value=clone(a)))
+        return prelude, _Rename(mapping, subst)
+
+    # ---- return elimination
+    def elim(self, stmts, res: Optional[str]):
+        out = []
+        for i, st in enumerate(stmts):
+            if isinstance(st, ast.Return):
+                if res is not None:
+                    out.append(ast.Assign(targets=[ast.Name(id=res, ctx=ast.Store())], value=st.value if st.value is not None else ast.Constant(value=None)))
+                return out
+            has_ret = any(isinstance(x, ast.Return) for x in walk_local(st))
+            if not has_ret:
+                out.append(st)
+                continue
+            if isinstance(st, ast.If):
+                rest = stmts[i + 1:]
+                new = ast.If(test=st.test, body=self.elim(list(st.body) + clone(rest), res) or [ast.Pass()],
+                             orelse=self.elim(list(st.orelse) + clone(rest), res))
+                out.append(new)
+                return out
+            raise _NoInline("return inside a loop / try / with")
+        return out
+
+    def inline_stmts(self, h, call, res: Optional[str], keep_returns=False):
+        if self.is_generator(h):
+            raise _NoInline("generator")
+        prelude, rn = self.bind(h, call)
+        body = [rn.visit(clone(s)) for s in _strip_doc(h.body)]
+        if keep_returns:
+            return prelude + body
+        body = self.elim(body, res)
+        if res is not None:
+            body = [ast.Assign(targets=[ast.Name(id=res, ctx=ast.Store())], value=ast.Constant(value=None))] + body
+        return prelude + (body or [ast.Pass()])
+
+    # ---- expression-level: single-expression helpers
+    def single_expr(self, h):
+        b = _strip_doc(h.body)
+        if len(b) == 1 and isinstance(b[0], ast.Return) and b[0].value is not None:
+            return b[0].value
+        return None
+
+    def subst_exprs(self, node):
+        outer = self
+
+        class T(ast.NodeTransformer):
+            def visit_Call(self, c):
+                self.generic_visit(c)
+                h = outer.helper(c)
+                if h is not None and not outer.is_generator(h):
+                    e = outer.single_expr(h)
+                    if e is not None:
+                        static = any((dotted(d) or "").split(".")[-1] == "staticmethod" for d in h.decorator_list)
+                        params = [a.arg for a in h.args.posonlyargs + h.args.args][0 if static else 1:]
+                        if len(params) == len(c.args):
+                            uses = {p: sum(1 for x in ast.walk(e) if isinstance(x, ast.Name) and x.id == p) for p in params}
+                            if all(_simple_arg(a) or uses[p] <= 1 for p, a in zip(params, c.args)):
+                                outer.changed = True
+                                return _Subst(dict(zip(params, c.args))).visit(clone(e))
+                return c
+
+            def visit_FunctionDef(self, n):
+                return n
+
+            def visit_Lambda(self, n):
+                return n
+        return T().visit(node)
+
+    # ---- loop fusions
+    def fuse_generator(self, st: ast.For):
+        call = st.iter
+        h = self.helper(call)
+        if h is None or not self.is_generator(h) or st.orelse:
+            return None
+        prelude, rn = self.bind(h, call)
+        body = [rn.visit(clone(s)) for s in _strip_doc(h.body)]
+        if len(body) != 1 or not isinstance(body[0], ast.While) or body[0].orelse:
+            raise _NoInline("generator helper is not a single while loop")
+        loop = body[0]
+        ys = [i for i, s in enumerate(loop.body) if any(isinstance(x, (ast.Yield, ast.YieldFrom)) for x in walk_local(s))]
+        if len(ys) != 1:
+            raise _NoInline("generator helper does not yield exactly once per round")
+        s = loop.body[ys[0]]
+        if isinstance(s, ast.Expr) and isinstance(s.value, ast.Yield) and s.value.value is not None:
+            val = s.value.value
+        else:
+            raise _NoInline("yield in an unsupported position")
+        post = loop.body[ys[0] + 1:]
+        if post and any(isinstance(x, ast.Continue) for b in st.body for x in walk_local(b)):
+            raise _NoInline("consumer uses continue and the generator has code after its yield")
+        fused = ast.While(test=loop.test, body=loop.body[:ys[0]] + [ast.Assign(targets=[st.target], value=val)] + list(st.body) + post, orelse=[])
+        return prelude + [fused]
+
+    def fuse_selector(self, st: ast.While):
+        t = st.test
+        if not (isinstance(t, ast.Compare) and len(t.ops) == 1 and isinstance(t.ops[0], ast.IsNot) and isinstance(t.comparators[0], ast.Constant)
+                and t.comparators[0].value is None and isinstance(t.left, ast.NamedExpr)) or st.orelse:
+            return None
+        call, target = t.left.value, t.left.target
+        h = self.helper(call)
+        if h is None or self.is_generator(h):
+            return None
+        prelude, rn = self.bind(h, call)
+        body = [rn.visit(clone(s)) for s in _strip_doc(h.body)]
+        if not body or not isinstance(body[0], ast.While) or body[0].orelse:
+            raise _NoInline("selector helper is not a loop")
+        tail = body[1:]
+        if not all(isinstance(s, ast.Return) and (s.value is None or (isinstance(s.value, ast.Constant) and s.value.value is None)) for s in tail):
+            raise _NoInline("selector helper does something after its loop")
+        loop = body[0]
+        rets = [x.value for x in walk_local(loop) if isinstance(x, ast.Return) and x.value is not None
+                and not (isinstance(x.value, ast.Constant) and x.value.value is None)]
+        same = rets and all(isinstance(v, ast.Name) for v in rets) and len({v.id for v in rets}) == 1
+        if same:
+            # the selected item lives in one local of the helper: call it by the consumer's name instead of copying it
+            loop = _Rename({rets[0].id: target.id}, {}).visit(loop)
+
+        def repl(stmts):
+            out = []
+            for s in stmts:
+                if isinstance(s, ast.Return):
+                    if s.value is None or (isinstance(s.value, ast.Constant) and s.value.value is None):
+                        out.append(ast.Break())
+                    else:
+                        copy = [] if (isinstance(s.value, ast.Name) and s.value.id == target.id) else [
+                            ast.Assign(targets=[ast.Name(id=target.id, ctx=ast.Store())], value=s.value)]
+                        out += copy + clone(list(st.body)) + [ast.Continue()]
+                    return out
+                if isinstance(s, ast.If):
+                    s = ast.If(test=s.test, body=repl(s.body) or [ast.Pass()], orelse=repl(s.orelse))
+                elif any(isinstance(x, ast.Return) for x in walk_local(s)):
+                    raise _NoInline("selector returns from inside a nested loop / try")
+                out.append(s)
+            return out
+        fused = ast.While(test=loop.test, body=repl(loop.body), orelse=[])
+        return prelude + [fused]
+
+    # ---- driver
+    def block(self, stmts):
+        out = []
+        for st in stmts:
+            try:
+                if isinstance(st, ast.For):
+                    f = self.fuse_generator(st)
+                    if f is not None:
+                        self.changed = True
+                        out += f
+                        continue
+                if isinstance(st, ast.While):
+                    f = self.fuse_selector(st)
+                    if f is not None:
+                        self.changed = True
+                        out += f
+                        continue
+                if isinstance(st, ast.Expr) and self.helper(st.value) is not None and self.single_expr(self.helper(st.value)) is None:
+                    out += self.inline_stmts(self.helper(st.value), st.value, None)
+                    self.changed = True
+                    continue
+                if isinstance(st, (ast.Assign, ast.AnnAssign)) and getattr(st, "value", None) is not None and self.helper(st.value) is not None \
+                        and self.single_expr(self.helper(st.value)) is None:
+                    tg = st.targets[0] if isinstance(st, ast.Assign) and len(st.targets) == 1 else (st.target if isinstance(st, ast.AnnAssign) else None)
+                    if isinstance(tg, ast.Name):
+                        out += self.inline_stmts(self.helper(st.value), st.value, tg.id)
+                        self.changed = True
+                        continue
+                if isinstance(st, ast.Return) and st.value is not None and self.helper(st.value) is not None and self.single_expr(self.helper(st.value)) is None:
+                    out += self.inline_stmts(self.helper(st.value), st.value, None, keep_returns=True)
+                    if not (out and isinstance(out[-1], ast.Return)):
+                        out.append(ast.Return(value=ast.Constant(value=None)))
+                    self.changed = True
+                    continue
+            except _NoInline as e:
+                self.notes.append(f"helper call `{src(st)[:60]}` not inlined: {e}")
+            # expression-level substitution in this statement's own expressions, then recurse into its blocks
+            if not isinstance(st, (ast.FunctionDef, ast.AsyncFunctionDef, ast.ClassDef)):
+                for field, val in list(ast.iter_fields(st)):
+                    if field in ("body", "orelse", "finalbody", "handlers"):
+                        continue
+                    if isinstance(val, ast.AST):
+                        setattr(st, field, self.subst_exprs(val))
+                    elif isinstance(val, list):
+                        setattr(st, field, [self.subst_exprs(v) if isinstance(v, ast.AST) else v for v in val])
+                for field in ("body", "orelse", "finalbody"):
+                    if isinstance(getattr(st, field, None), list) and getattr(st, field):
+                        setattr(st, field, self.block(getattr(st, field)))
+                for hd in getattr(st, "handlers", []) or []:
+                    hd.body = self.block(hd.body)
+            out.append(st)
+        return out
+
+    def view(self, func):
+        f = clone(func)
+        for _ in range(4):
+            self.changed = False
+            f.body = self.block(f.body)
+            if not self.changed:
+                break
+        ast.fix_missing_locations(f)
+        left = sorted({c.func.attr for c in ast.walk(f) if self.helper(c) is not None} | (
+            {x for x in ()}))
+        return f, not left, [f"calls to private helpers left as they are: {', '.join(left)}"] * bool(left) + self.notes
